@@ -131,7 +131,7 @@ func parseCase(s string) (*kase, error) {
 		}
 		e := event{code: t[0]}
 		switch t[0] {
-		case 't':
+		case 't', 'w':
 			if e.dt, err = strconv.ParseInt(t[2:], 10, 64); err != nil || e.dt < 0 {
 				return nil, errors.New("bad tick")
 			}
@@ -166,7 +166,7 @@ func parseCase(s string) (*kase, error) {
 	}
 	if k.sched != "" {
 		n := len(k.evs)
-		bad := func(c byte) bool { return c == 't' || c == 'q' || c == 'r' || c == 'x' }
+		bad := func(c byte) bool { return c == 't' || c == 'w' || c == 'q' || c == 'r' || c == 'x' }
 		if n < 2 || bad(k.evs[n-1].code) || bad(k.evs[n-2].code) || k.evs[n-1].c.node == k.evs[n-2].c.node {
 			return nil, errors.New("sched: the last two events must be handler calls on different nodes")
 		}
@@ -494,6 +494,16 @@ func runCase(k *kase) (res runResult) {
 		case 'x': // session manager shutdown
 			nodes[e.c.node].sm.Close()
 			nodes[e.c.node].down = true
+		case 'w': // wall time passes on every backend: storage deadlines AND the records' ExpiresAt move
+			d := time.Duration(e.dt) * time.Millisecond
+			t0 := time.Now()
+			time.Sleep(d)
+			if time.Since(t0)-d > 25*time.Millisecond {
+				res.overshot = true
+			}
+			if !realClock(k.backend) {
+				mr.FastForward(d)
+			}
 		case 't':
 			d := time.Duration(e.dt) * time.Millisecond
 			if realClock(k.backend) {
@@ -578,8 +588,8 @@ func runCase(k *kase) (res runResult) {
 }
 func totalTicks(k *kase) time.Duration {
 	var s int64
-	if realClock(k.backend) {
-		for _, e := range k.evs {
+	for _, e := range k.evs {
+		if e.code == 'w' || (e.code == 't' && realClock(k.backend)) {
 			s += e.dt
 		}
 	}
@@ -592,7 +602,7 @@ func execCase(cs string) (string, string) {
 	if err != nil {
 		return "", "bad-case:" + sanitize(err.Error())
 	}
-	if realClock(k.backend) && totalTicks(k) > 20*time.Second {
+	if totalTicks(k) > 20*time.Second {
 		return "", "bad-case:sleeps_too_long"
 	}
 	for attempt := 0; ; attempt++ {
